@@ -135,3 +135,53 @@ func isStringT(t types.Type) bool {
 	b, ok := t.Underlying().(*types.Basic)
 	return ok && b.Kind() == types.String
 }
+
+// R-literal-radix: the lexer admits only decimal digits (and separators) in a number token; the place
+// that decodes the token's text must read it in base 10. A base of 0 lets strconv infer the base from
+// a prefix, so `010` becomes 8 and `08` a syntax error.
+func init() {
+	register(&Rule{ID: "R-literal-radix", Floor: 1, Run: ruleLiteralRadix,
+		Doc: "every strconv.ParseInt / ParseUint call of the parser package that decodes a token value passes the constant base 10 (the lexical grammar's int literal is a sequence of decimal digits; the lexer's escape decoder, whose radices are prescribed per escape form, is R-lex-escapes' business)"})
+}
+
+func ruleLiteralRadix(c *Ctx) []Obligation {
+	pp := c.Pkg("homescript/parser")
+	if pp == nil {
+		return []Obligation{{Key: "anchor", Status: Undecided, Detail: "parser package not loaded", Nontrivial: true}}
+	}
+	info := pp.TypesInfo
+	var obs []Obligation
+	for _, fd := range AllFuncDecls(pp) {
+		if fd.Body == nil {
+			continue
+		}
+		n := 0
+		ast.Inspect(fd.Body, func(nd ast.Node) bool {
+			call, ok := nd.(*ast.CallExpr)
+			if !ok || len(call.Args) < 2 {
+				return true
+			}
+			fn := CalleeOf(info, call)
+			if fn == nil || fn.Pkg() == nil || fn.Pkg().Path() != "strconv" || (fn.Name() != "ParseInt" && fn.Name() != "ParseUint") {
+				return true
+			}
+			n++
+			o := Obligation{Key: fmt.Sprintf("parser.%s|%s #%d|decimal", FuncName(fd), fn.Name(), n), Pos: c.Pos(call.Pos()), Nontrivial: true}
+			tv := info.Types[call.Args[1]]
+			switch {
+			case tv.Value == nil:
+				o.Status, o.Detail = Undecided, "the base "+exprStr(call.Args[1])+" is not a constant"
+			case tv.Value.String() == "10":
+				o.Status, o.Detail = Discharged, "base 10"
+			default:
+				o.Status, o.Detail = Violated, "the literal is decoded with base "+tv.Value.String()+": the lexer's int token is a run of decimal digits, so a leading zero (or a prefix strconv recognises) changes the value or turns a valid literal into an error"
+			}
+			obs = append(obs, o)
+			return true
+		})
+	}
+	if len(obs) == 0 {
+		obs = append(obs, Obligation{Key: "anchor", Status: Undecided, Detail: "no strconv.ParseInt call found in the parser: the int literal decoder moved", Nontrivial: true})
+	}
+	return obs
+}
